@@ -119,16 +119,18 @@ def build_doc(rng, ch, pay):
     host = list(rng.choice(HOSTS))
     q = pay.replace('"', '')
     nb = pay.replace('{', '').replace('}', '')
+    # multi-byte characters glued in front of the payload, in the same text run (byte offsets != char indices)
+    pre = ''.join(rng.choice('éЖü日本語の✓Ω') for _ in range(rng.choice([0, 0, 1, 2, 5, 13, 25]))) if rng.random() < 0.6 else ''
     if ch == 'plain':
-        rows = host + [pay, ' ' + pay + ' -+- ' + pay]
+        rows = host + [pre + pay, ' ' + pay + ' -+- ' + pre + pay]
         return gen.text_of(rows)
     if ch == 'quoted':
-        rows = host + ['"' + q + '" "' + q, '-- "' + q + '" |']
+        rows = host + ['"' + pre + q + '" "' + q, '-- "' + q + pre + q + '" |']
         return gen.text_of(rows)
     if ch == 'tag':
         # a valid tag next to payload text inside a box, and tag names carrying the marker
         m = re.search(r'MK\d+', pay)[0]
-        inner = ' {' + m + ',a' + m + '} ' + pay.replace('\n', ' ')
+        inner = ' {' + m + ',a' + m + '} ' + pre + pay.replace('\n', ' ')
         w = len(inner) + 2
         return gen.text_of(['+' + '-' * w + '+', '|' + inner + '  |', '+' + '-' * w + '+'])
     if ch == 'tag_invalid':
